@@ -821,3 +821,41 @@ def iteration_conditions(cfg: CFG, loop: ast.AST, node: ast.AST, limit: int = 64
         if label == "T" and dst in can_reach:
             walk(dst, (), ())
     return out
+
+
+def all_pairs_of(site: ast.AST, stop: ast.AST) -> Optional[str]:
+    """ the sequence X when the loops enclosing `site` visit every unordered pair of X exactly once and cannot be left
+        early: `for i, a in enumerate(X[:-1]): for b in X[i + 1:]`, the same over `enumerate(X)`, the index form with
+        `range(len(X))` / `range(i + 1, len(X))`, or `for a, b in itertools.combinations(X, 2)` """
+    from .astutil import enclosing_loops
+    loops = [lp for lp in enclosing_loops(site, stop=stop) if isinstance(lp, ast.For)]
+    if not loops or any(isinstance(n, ast.Break) for n in ast.walk(loops[-1])):
+        return None
+    inner = loops[0]
+    if isinstance(inner.iter, ast.Call) and txt(inner.iter.func) in ("combinations", "itertools.combinations") \
+            and len(inner.iter.args) == 2 and txt(inner.iter.args[1]) == "2" and isinstance(inner.target, ast.Tuple):
+        return txt(inner.iter.args[0])
+    if len(loops) < 2:
+        return None
+    outer = loops[1]
+    if isinstance(outer.iter, ast.Call) and txt(outer.iter.func) == "enumerate" and len(outer.iter.args) == 1 \
+            and isinstance(outer.target, ast.Tuple) and len(outer.target.elts) == 2:
+        index = txt(outer.target.elts[0])
+        seq = outer.iter.args[0]
+        if isinstance(seq, ast.Subscript) and isinstance(seq.slice, ast.Slice) and seq.slice.lower is None \
+                and txt(seq.slice.upper) == "-1" and seq.slice.step is None:
+            seq = seq.value
+        if isinstance(inner.iter, ast.Subscript) and isinstance(inner.iter.slice, ast.Slice) and inner.iter.slice.upper is None \
+                and inner.iter.slice.step is None and txt(inner.iter.slice.lower) in (f"{index} + 1", f"1 + {index}") \
+                and txt(inner.iter.value) == txt(seq):
+            return txt(seq)
+        return None
+    if isinstance(outer.iter, ast.Call) and txt(outer.iter.func) == "range" and len(outer.iter.args) == 1 \
+            and isinstance(inner.iter, ast.Call) and txt(inner.iter.func) == "range" and len(inner.iter.args) == 2:
+        index = txt(outer.target)
+        bound = txt(outer.iter.args[0])
+        for seq_len in (bound, bound[:-len(" - 1")] if bound.endswith(" - 1") else bound):
+            if seq_len.startswith("len(") and txt(inner.iter.args[0]) in (f"{index} + 1", f"1 + {index}") \
+                    and txt(inner.iter.args[1]) == seq_len:
+                return seq_len[4:-1]
+    return None
